@@ -357,8 +357,8 @@ CLAIMS = {
          "lower_ctor_iff / lower_ctor_iff_block / lower_ctor_iff_arm (for every tree, fuel and state the lowered AST is classified exactly as the "
          "declarative scope rules of Model/Resolve.lean say — every EConstr [x] has x in the file's constructor set and no enclosing local binder x, "
          "every classified EPath [x] is not such a name — hence Resolve.conOkExpr holds of it: the hypothesis of resolve_refines_spec is a theorem), "
-         "lower_stmt_only_pushes, lower_pat_ty_leave_stack, lower_total_partial (no tree reaches the one panic site of lower.rs; missing: that the "
-         "model's fuel always suffices), isCtorPath_bare_iff / isCtorPath_qualified (the classification test), patVars_scope (bind_pat pushes "
+         "lower_stmt_only_pushes, lower_pat_ty_leave_stack, lower_no_panic (no tree reaches the one panic site of lower.rs, function by function), lower_fuel_suffices (the model's fuel 2*size+10 is never exhausted), lower_total (for every tree: within fuel, no panic, stack empty, an ast::File iff no diagnostic), lower_ctor_iff_file (every function and method body of a lowered file satisfies conOk under its parameters), "
+         "isCtorPath_bare_iff / isCtorPath_qualified (the classification test), patVars_scope (bind_pat pushes "
          "exactly Resolve.patNames). Tie: the REAL rowan tree of ~52 000 texts per quick run (all corpus and witness files, the name catalogue, "
          "every operator tree of this check, 700 generated whole programs with items / patterns / types / blocks / closures / struct literals, "
          "2 500 token-level mutants = error-recovered trees, LF/CRLF pairs) is lowered by the model and must equal the real ast::File dump or "
@@ -369,8 +369,7 @@ CLAIMS = {
     note="Proved: the theorems above about the Lean model. Validated only (differential, not proved): that the model equals the Rust parser "
          "and lowering; integer/float literal values (no Lean theorem: the value is computed by Rust's str::parse, the harness compares with "
          "an independently computed expectation); items, patterns and types are not in the OPERATOR-tree generator (they are in the round-11 "
-         "program generator of the lowering tie); NOT proved: the fold of lower_ctor_iff over lower_item to one whole-File statement (proved for expressions, blocks, arms from any stack and "
-         "for lower_fn from the empty stack), lower_fuel_suffices, "
+         "program generator of the lowering tie); NOT proved: "
          "lower_parse_print beyond operator trees, "
          "sufficiency of the model's fuel, source ranges of lowering diagnostics (not modelled). "
          "Trusted: Lean kernel, tools/extract.py regexes, harness AST dump and trivia insertion, the real lexer (C12) for token boundaries.",
